@@ -5,8 +5,10 @@
 * ancestor sets (the specification side of both oracles)
 
 A repository history is a dict
-    {"commits": [{"p": [parent ids], "t": [[major, minor, patch, build], ...], "m": 0|1, "pins": {comp: [M, m, p]}}, ...],
+    {"commits": [{"p": [parent ids], "t": [[major, minor, patch, build], ...], "m": 0|1, "ts": seconds,
+                  "pins": {comp: [M, m, p]}}, ...],
      "refs": [[name, head id], ...]}
+"ts" is the commit time in seconds after BASE_TS (absent: 10 s apart, in id order); times need not grow along the history.
 commit ids are positions in "commits" (parents have smaller ids); ref names are the names under the remote
 ("master", "release/1.10", "feature/x").  The real code sees commit id+1 as `intid` (0 = "no parent" in mock_git).
 """
@@ -93,7 +95,30 @@ def constants(repo):
     if not isinstance(start, int):
         raise ValueError("_brcommits_counter start not found")
     out["fakeStart"] = start
+    # cut-off periods (module level): plain integer expressions like `86400 * 30`
+    for key, name in (("obsoleteCutoff", "_OBSOLETE_BRANCH_CUTOFF_PERIOD"),
+                      ("componentsCutoff", "_CHECK_COMPONENTS_CUTOFF_PERIOD")):
+        val = None
+        for node in tree.body:
+            if isinstance(node, ast.Assign) and len(node.targets) == 1 \
+                    and isinstance(node.targets[0], ast.Name) and node.targets[0].id == name:
+                val = _int_expr(node.value)
+        if not isinstance(val, int) or val < 0:
+            raise ValueError("%s not found in ak/ghist.py" % name)
+        out[key] = val
     return out
+
+
+def _int_expr(node):
+    """value of an integer expression built from literals, * and +"""
+    if isinstance(node, ast.Constant) and isinstance(node.value, int) and not isinstance(node.value, bool):
+        return node.value
+    if isinstance(node, ast.BinOp) and isinstance(node.op, (ast.Mult, ast.Add)):
+        a, b = _int_expr(node.left), _int_expr(node.right)
+        if a is None or b is None:
+            return None
+        return a * b if isinstance(node.op, ast.Mult) else a + b
+    return None
 
 
 def translate(repo):
@@ -112,23 +137,45 @@ def translate(repo):
             "def fakeNM : Nat × Nat × Nat × Nat := (%d, %d, %d, %d)\n"
             "/-- first id of a pseudo build (`_brcommits_counter`) -/\n"
             "def fakeStart : Nat := %d\n"
+            "/-- `_OBSOLETE_BRANCH_CUTOFF_PERIOD` (seconds) -/\n"
+            "def obsoleteCutoff : Nat := %d\n"
+            "/-- `_CHECK_COMPONENTS_CUTOFF_PERIOD` (seconds) -/\n"
+            "def componentsCutoff : Nat := %d\n"
             "end Gen.Ghist\n") % (
         ", ".join("'%s'" % s for s in c["seps"]), _lean_str(c["sentinel"]),
         ", ".join(_lean_str(m) + ".toList" for m in c["masters"]), _lean_str(c["release"]),
-        *c["fakeNB"], *c["fakeNM"], c["fakeStart"])
+        *c["fakeNB"], *c["fakeNM"], c["fakeStart"], c["obsoleteCutoff"], c["componentsCutoff"])
     return {"AkVerif/Gen/Ghist.lean": body}
 
 
 # ------------------------------------------------------------------ protocol text
 
-def enc_commit(c):
+def enc_commit(c, i=None):
     p = ",".join(str(x) for x in c["p"]) if c["p"] else "-"
     t = "+".join(".".join(str(x) for x in bn) for bn in c.get("t", [])) or "-"
-    return "%s:%s:%d" % (p, t, 1 if c["m"] else 0)
+    return "%s:%s:%d:%d" % (p, t, 1 if c["m"] else 0, commit_ts(c, i))
+
+
+def commit_ts(c, i):
+    """commit time of a commit, seconds after BASE_TS ("ts"; histories without times are 10 s apart)"""
+    ts = c.get("ts")
+    if ts is None:
+        if i is None:
+            raise ValueError("commit without a time")
+        return i * 10
+    return ts
+
+
+def with_times(h):
+    """the history with explicit commit times"""
+    for i, c in enumerate(h["commits"]):
+        if c.get("ts") is None:
+            c["ts"] = i * 10
+    return h
 
 
 def enc_hist(h):
-    commits = ";".join(enc_commit(c) for c in h["commits"]) or "-"
+    commits = ";".join(enc_commit(c, i) for i, c in enumerate(h["commits"])) or "-"
     refs = ";".join("%s:%d" % (enc_str(REMOTE + "/" + n), hd) for n, hd in ref_order(h["refs"])) or "-"
     return "%s %s %s" % (enc_str(REMOTE), commits, refs)
 
@@ -143,10 +190,10 @@ def dec_hist(remote, commits, refs):
     cs = []
     if commits != "-":
         for tok in commits.split(";"):
-            p, t, m = tok.split(":")[:3]
+            p, t, m, ts = tok.split(":")[:4]
             cs.append({"p": [] if p == "-" else [int(x) for x in p.split(",")],
                        "t": [] if t == "-" else [[int(x) for x in bn.split(".")] for bn in t.split("+")],
-                       "m": int(m)})
+                       "m": int(m), "ts": int(ts)})
     rs = []
     if refs != "-":
         for tok in refs.split(";"):
@@ -159,6 +206,8 @@ def dec_hist(remote, commits, refs):
 
 # ------------------------------------------------------------------ the real code on a synthetic history
 
+BASE_TS = 1_700_000_000
+DAY = 86400
 MASTER_STYLE_FROM = 50      # build numbers with major >= 50 are rendered as `build_N_master_success` + VERSION file
 
 
@@ -234,9 +283,8 @@ def repo_classes():
 def mock_repo(h, name, text, pins_file=None, noise=False):
     k = repo_classes()
     repo = k["Mock"](*mock_lines(h, text, pins_file, noise), name=name)
-    base = 1_700_000_000
-    for c in repo.all_commits.values():          # inside every cut-off window, deterministic
-        c.committed_date = base + c.intid * 10
+    for c in repo.all_commits.values():          # the times of the history, deterministic
+        c.committed_date = BASE_TS + commit_ts(h["commits"][c.intid - 1], c.intid - 1)
     return repo
 
 
@@ -244,17 +292,29 @@ class RealCodeTimeout(Exception):
     pass
 
 
+_WATCHDOG = {"hits": 0, "spent": 0.0}
+WATCHDOG_FULL_HITS = 2        # that many hits wait the full time, later ones 0.2 s (the code is known to hang by then)
+WATCHDOG_BUDGET = 15.0        # seconds a process may lose in watchdog hits; afterwards the real code is not run any more
+
+
 def with_timeout(seconds, fn, *a):
-    """runs the real code under a watchdog: a change that makes it loop must show up as an answer, not as a hang"""
+    """runs the real code under a watchdog: a change that makes it loop must show up as an answer, not as a hang.
+    One hit is enough evidence, so the time lost is bounded per process: a check of a hanging tree ends in minutes."""
     import signal
+    w = _WATCHDOG
+    if w["spent"] >= WATCHDOG_BUDGET:
+        raise RealCodeTimeout("not run: the real code hit the watchdog %d times before" % w["hits"])
+    limit = seconds if w["hits"] < WATCHDOG_FULL_HITS else min(seconds, 0.2)
 
     def on_alarm(signum, frame):
-        raise RealCodeTimeout("real code still running after %ss" % seconds)
+        w["hits"] += 1
+        w["spent"] += limit
+        raise RealCodeTimeout("real code still running after %ss" % limit)
     try:
         old = signal.signal(signal.SIGALRM, on_alarm)
     except ValueError:              # not in the main thread: no watchdog
         return fn(*a)
-    signal.setitimer(signal.ITIMER_REAL, seconds)
+    signal.setitimer(signal.ITIMER_REAL, limit)
     try:
         return fn(*a)
     finally:
